@@ -694,6 +694,103 @@ func (e *engine) genMaint(r *hlib.Rand) []string {
 	return ops
 }
 
+// genMaintReads: a maintenance case for C17.  Three or four transactions write one or two keys
+// (puts mostly), some commit, some are rolled back — in any order of their start timestamps, so
+// that default-CF entries of smaller start ts get written *after* (into a newer memtable / table
+// than) committed values of greater start ts; rotation, flush and compactions in between; point
+// reads and scans at every start/commit timestamp after every step.
+func (e *engine) genMaintReads(r *hlib.Rand) []string {
+	perm := append([][]byte(nil), keyPool...)
+	for i := range perm {
+		j := i + r.Intn(len(perm)-i)
+		perm[i], perm[j] = perm[j], perm[i]
+	}
+	keys := perm[:1+r.Intn(2)]
+	other := perm[2]
+	nt := 3 + r.Intn(2)
+	order := r.Intn(3) // 0: ascending start ts, 1: descending, 2: random
+	starts := make([]uint64, nt)
+	for i := range starts {
+		starts[i] = uint64(10 * (i + 1))
+	}
+	var ops []string
+	reads := func() {
+		k := hlib.Pick(r, keys)
+		st := hlib.Pick(r, starts)
+		ts := hlib.Pick(r, []uint64{st, st + 4, st + 5, st + 6, 1000})
+		ops = append(ops, fmt.Sprintf("get %s %d", hlib.Hex(k), ts))
+		if r.Chance(50) {
+			ops = append(ops, fmt.Sprintf("scan - 1 10 %d", ts))
+		}
+	}
+	maint := func() {
+		switch x := r.Intn(100); {
+		case x < 30:
+			ops = append(ops, "rotate")
+		case x < 65:
+			ops = append(ops, "rotate", "flush")
+		case x < 82:
+			ops = append(ops, "compact l0move")
+		case x < 93:
+			ops = append(ops, "compact drain")
+		default:
+			ops = append(ops, "compact keep")
+		}
+	}
+	n := 10 + r.Intn(16)
+	for i := 0; i < n; i++ {
+		var st uint64
+		switch order {
+		case 0:
+			st = starts[(i*nt)/n]
+		case 1:
+			st = starts[nt-1-(i*nt)/n]
+		default:
+			st = hlib.Pick(r, starts)
+		}
+		if r.Chance(25) {
+			st = hlib.Pick(r, starts)
+		}
+		ks := keys
+		if len(keys) == 2 && r.Chance(30) {
+			ks = keys[:1]
+		}
+		switch x := r.Intn(100); {
+		case x < 30:
+			var muts []string
+			for j, k := range ks {
+				op := hlib.Pick(r, []string{"P", "P", "P", "P", "D", "L"})
+				val := "-"
+				if op == "P" {
+					val = hlib.Hex([]byte(fmt.Sprintf("r%d%c", st, 'a'+byte(j))))
+				}
+				muts = append(muts, op+":"+hlib.Hex(k)+":"+val)
+			}
+			ops = append(ops, fmt.Sprintf("pw %d %s 100 0 %s", st, hlib.Hex(keys[0]), strings.Join(muts, ",")))
+		case x < 50:
+			ops = append(ops, fmt.Sprintf("cm %d %d %s", st, st+5, keyList(ks)))
+		case x < 64:
+			ops = append(ops, fmt.Sprintf("rb %d %s", st, keyList(ks)))
+		case x < 68:
+			ops = append(ops, fmt.Sprintf("pw %d %s 100 0 P:%s:%s", 70+10*uint64(r.Intn(3)), hlib.Hex(other), hlib.Hex(other), hlib.Hex([]byte("o"))))
+		case x < 88:
+			maint()
+		default:
+			reads()
+		}
+		reads()
+	}
+	for _, m := range []string{"rotate", "flush", "flush", "compact l0move", "compact l0move", "compact drain", "compact drain"} {
+		ops = append(ops, m)
+		for _, k := range keys {
+			ops = append(ops, fmt.Sprintf("get %s 1000", hlib.Hex(k)))
+		}
+		ops = append(ops, "scan - 1 10 1000")
+	}
+	ops = append(ops, "inv", "dump")
+	return ops
+}
+
 func (e *engine) Gen(r *hlib.Rand, tier string) []string {
 	pct := maintPct
 	if tier == "thorough" && os.Getenv("VERIF_PERC_MAINT_PCT") == "" {
@@ -701,6 +798,9 @@ func (e *engine) Gen(r *hlib.Rand, tier string) []string {
 	}
 	if e.prop == "C19" && r.Chance(pct) {
 		return e.genMaint(r)
+	}
+	if e.prop == "C17" && r.Chance(pct) {
+		return e.genMaintReads(r)
 	}
 	nk := 2 + r.Intn(3)
 	perm := append([][]byte(nil), keyPool...)
